@@ -10,14 +10,16 @@ CONFIG = {
             "C02_wrap_fits": "full: every string/span set, width >= 1, every justify mode, every overflow except ignore, wrapped or no_wrap, both model variants",
             "C02_divide_line_lines_fit": "full (central lemma): offsets monotone, lines concatenate to the string, every line right-stripped fits; all strings incl. zero-width/double-width/any whitespace, width >= 2",
             "C02_wrap_keeps_nonspace": "full: all strings incl. tabs/newlines/zero-width/double-width, all span sets, widths >= 2, every justify mode incl. full, overflow fold, both model variants",
-            "C02_wrap_breaks_only_long_words": "full at the level of divide_line: a break is a word start or lies inside a word wider than the width; the wrap-level reading is checked by breaks_only_long_b on implementation output",
+            "C02_wrap_breaks_only_long_words": "full, at the level of Text.wrap's output (breaks_only_long_b): all strings incl. tabs/newlines, widths >= 2, every justify mode, both model variants",
+            "C02_divide_line_breaks_only_long": "full: every break offset is a word start or lies inside a word wider than the width",
+            "C02_wrap_styles": "full, ONE theorem at the level of Text.wrap: every overflow mode, every justify mode incl. full, wrapped or no_wrap, all strings, ALL span sets, widths >= 2; repaired divide/pad_left (= /repo now); hypothesis: style equality is decidable (seqb reflects =)",
             "C02_divide_styles": "full for the repaired Text.divide: every character keeps exactly its ordered covering styles, no hypothesis on the spans",
-            "C02_wrap_styles_asis_refuted": "refutation witness (D15): value-keyed order dict changes which colour wins",
-            "C02_wrap_styles_pad_asis_refuted": "refutation witness (new): justify center/right + overflow=ignore shifts spans by a negative pad",
-            "wrap_styles at the level of Text.wrap": "not one theorem: divide (the precedence-deciding step) proved; trimming/padding/tab/justify passes validated by styles_kept_b on implementation output for every case",
+            "C02_divide_styles_asis_partial": "the pre-fix Text.divide is correct when all span styles are pairwise different",
+            "C02_wrap_styles_asis_refuted": "refutation witness (D15, fixed in /repo): value-keyed order dict changes which colour wins",
+            "C02_wrap_styles_pad_asis_refuted": "refutation witness (fixed in /repo): justify center/right + overflow=ignore shifts spans by a negative pad",
         },
         "level_text": "Machine-checked Coq theorems, unbounded in strings, span sets and widths, about an executable model of rich._wrap (words, divide_line) and Text.wrap with everything it calls (split, expand_tabs, divide, Span.split, rstrip_end, truncate, pad, Lines.justify). The interpreter's whitespace class is regenerated and compared on every code point; regex sources, call-site keywords and pass order of Text.wrap are regenerated from /repo and pinned by proof; model and implementation are compared per output line (characters and, per character, the ordered covering style tokens) on generated inputs, and the four spec checkers of the theorems are evaluated on the implementation's own output.",
-        "level_note": "Main model variant = repaired (fixes/C02_divide_span_order.diff and fixes/C02_pad_negative_count.diff applied); on a tree without them the corpus witnesses fail styles_kept_b on the implementation (VIOLATION). Styles are abstract tokens; on the implementation side a duck-typed free 'later wins' style algebra replaces rich.style.Style (Text.wrap never renders). Input domain excludes the four characters Text.__init__ strips (C05/D1). (c) is a theorem for Text.divide only; the other passes are validated, not proved.",
+        "level_note": "Main model variant = repaired (fixes/C02_divide_span_order.diff and fixes/C02_pad_negative_count.diff, both committed in /repo); on a tree without them the corpus witnesses fail styles_kept_b on the implementation (VIOLATION). Styles are abstract tokens; on the implementation side a duck-typed free 'later wins' style algebra replaces rich.style.Style (Text.wrap never renders). Input domain excludes the four characters Text.__init__ strips (C05/D1). Whitespace characters are not compared by (c): padding, tab expansion and justify regenerate whitespace (a space inserted by justify='full' takes the style of its neighbours by design).",
         "assumptions": [
             "CPython str/list/dict/re semantics as modelled (str.isspace class regenerated and swept exhaustively)",
             "styles are opaque values with a decidable equality (dict-key equality of Span tuples)",
